@@ -40,9 +40,23 @@ def run(ctx):
     for sc in W.random_big(rnd, 80 if q else 800, [2, 3, 4, 7, 25]):
         # larger bulk walks: subtrees of very different sizes are exhausted in different rounds
         S.append(dict(sc, api="bulkwalk", cut=rnd.choice(list(drv_walk.CUTS)), proto=rnd.choice(["v2c", "v2c", "v2c"] + W.PROTO_SAMPLE)))
+    # many roots in one call (a request with more than 100 repeaters is still an ordinary request)
+    for nroots in (99, 100, 101, 130):
+        manydb = [[k, j] for k in range(1, nroots + 1) for j in range(1, 1 + (k % 3))]
+        for m in (1, 2, 5):
+            S.append(dict(db=manydb, roots=[[k] for k in range(1, nroots + 1)], bulk=m, api="bulkwalk", cut="full", proto="v2c"))
+        S.append(dict(db=manydb, roots=[[k] for k in range(1, nroots + 1)], bulk=0, api="multiwalk", proto="v2c"))
+    # objects the library knows by name are ordinary MIB objects: the same walks with the universe placed over the usmStats counters
+    # (1.3.6.1.6.3.15.1.1.k.0), system and snmpV2 subtrees, over every protocol level
+    special = [[0, 1, 0]] + [[1, k, 0] for k in range(1, 7)] + [[2, 1, 0]]
+    for pfx in ("usm", "sys", "snmpv2"):
+        for proto in ["v2c"] + W.PROTO_SAMPLE:
+            for roots in ([[1]], [[0]], [[0], [1]], [[1], [2]], [[1, 4]]):
+                S.append(dict(db=special, roots=roots, bulk=0, api="multiwalk" if len(roots) > 1 else "walk", proto=proto, pfx=pfx))
+                S.append(dict(db=special, roots=roots, bulk=rnd.choice([1, 2, 3, 10]), api="bulkwalk", cut="full", proto=proto, pfx=pfx))
     ctx.rule = ("scenarios = TLC-enumerated initial states of Walk.tla (every database over the %d-instance universe x every list of 1..3 "
                 "pairwise disjoint roots in every order%s) replayed through Client.walk/multiwalk, PyWrapper, v2c and sampled v3 levels, "
-                "plus seeded random larger databases (30-200 instances, 1-5 roots) walked by GETNEXT and by GETBULK with repetitions 2..25; non-trivial = distinct scenario with >= 2 requests and >= 1 delivered instance") % (
+                "plus seeded random larger databases (30-200 instances, 1-5 roots) walked by GETNEXT and by GETBULK with repetitions 2..25; the universe placed over the usmStats / system / snmpV2 subtrees for v2c and all v3 levels; non-trivial = distinct scenario with >= 2 requests and >= 1 delivered instance") % (
                    7 if q else 9, "; 3-root lists sampled 1/4 in quick" if q else "")
     ctx.exhaustive = not q
     W.drive_and_judge(ctx, S)
